@@ -1,7 +1,7 @@
 (* Props/C06.v — Rollback restores exactly the state of the chosen snapshot.
    Statements only; proofs in Proofs/RollbackP.v.  [rollback w id] mirrors apply.rs::rollback
    (state-tree branch; snapshots in id order, [id] = ordinal). *)
-From AP Require Import Base.Str Gen.Tables Model.Deploy Proofs.DeployP Proofs.ConvergeP Proofs.RollbackP.
+From AP Require Import Base.Str Gen.Tables Model.Deploy Proofs.DeployP Proofs.ConvergeP Proofs.RollbackP Proofs.HistoryP Proofs.WfDec.
 Open Scope N_scope.
 
 (* rollback records and unknown ids are rejected as targets without any write *)
@@ -52,14 +52,32 @@ Proof.
 Qed.
 Print Assumptions C06_restore_partial.
 
+(* HISTORY-LEVEL restore, outside the known classes: let S be the snapshot of an applied, unfiltered
+   deploy after which every root has a manifest (no K6c).  After ANY history of further unfiltered
+   deploys without adopt whose new outputs are created rather than found (no K6a, no K6b; each with
+   the wfD/wfM/covered hypotheses evaluated in the world where it runs) interleaved with user edits
+   or deletions of managed files, rollback to S succeeds and the WHOLE disk — every deployed file,
+   every manifest, everything else — is exactly what it was right after S.  [hist_ok] spells the
+   per-step hypotheses (Proofs/HistoryP.v); the last premise says a path keeps its target between S
+   and the current head. *)
+Theorem C06_restore_histories : forall st confirmed adopt w0 roots DS pl wS h,
+  deploy_cmd st confirmed adopt None w0 roots DS = (pl, (OApplied, wS)) ->
+  wfD roots DS -> wfM DS (managed_for_plan w0 roots None) -> covered roots DS ->
+  all_manifests roots (files wS) ->
+  hist_ok roots wS h ->
+  let w := run_hist roots wS h in
+  let id := length (snaps w0) in
+  (forall cur init, snaps w = init ++ [cur] ->
+     forall e e', In e (sn_managed cur) -> In e' (triples DS) -> mpath e = mpath e' -> mtp e = mtp e') ->
+  exists w', rollback w id = (RbOk, w') /\ forall p, files w' p = files wS p.
+Proof. exact rollback_inverts_history. Qed.
+Print Assumptions C06_restore_histories.
+
 (* the FULL statement of the property — every path touched by any deployment after S has the
    content it had right after S — is refuted by the faithful model: a path can be touched after S
    without being recorded by S or by the head (it then falls under clause (4) above: unchanged).
-   Witness: deploy codex:a (S), deploy --target zed creates z (head), rollback to S leaves... the
-   other way round: S filtered to zed, a full deploy adds codex files, rollback to S deletes them
-   although they existed right after S?  No: they did not exist.  The refuting shape is: S is
-   target-filtered, files of another target existed (deployed earlier) right after S, the head
-   records them, rollback deletes them. *)
+   The refuting shape (class K6a): S is target-filtered, files of another target existed (deployed
+   earlier) right after S, the head records them, rollback deletes them. *)
 Example C06_restore_refuted :
   let rc := Build_root (s "codex") [s "h"; s "codex"] false in
   let rz := Build_root (s "zed") [s "h"; s "zed"] false in
@@ -86,3 +104,41 @@ Example C06_nonvacuous :
   fst (rollback w2 0) = RbOk /\ files w3 pa = Some (FBytes 1) /\ files w3 pb = None /\
   files w3 (mf_path rc) = files w1 (mf_path rc) /\ plan (files w3) [Build_dfile (s "codex") pa 1 []] (managed_for_plan w3 [rc] None) = [].
 Proof. vm_compute. repeat split; reflexivity. Qed.
+
+(* non-vacuity of C06_restore_histories: a snapshot S, then a second deploy that updates a file and
+   creates another, a user deletion of a managed file, a third deploy that drops a module; every
+   premise holds (decided by the boolean deciders of Proofs/WfDec.v, proved sound there) and the
+   conclusion is the whole-disk equality *)
+Example C06_histories_nonvacuous :
+  let r1 := Build_root (s "codex") [s "h"; s "codex"] false in
+  let r2 := Build_root (s "codex") [s "h"; s "codex"; s "prompts"] true in
+  let pa := [s "h"; s "codex"; s "AGENTS.md"] in
+  let pb := [s "h"; s "codex"; s "prompts"; s "b.md"] in
+  let pc := [s "h"; s "codex"; s "prompts"; s "c.md"] in
+  let roots := [r1; r2] in
+  let w0 := Build_world (fun _ => None) [] in
+  let DS := [Build_dfile (s "codex") pa 1 []; Build_dfile (s "codex") pb 2 []] in
+  let wS := snd (snd (deploy_cmd SJsonYes true false None w0 roots DS)) in
+  let h := [HopDeploy SJsonYes true [Build_dfile (s "codex") pa 7 []; Build_dfile (s "codex") pb 2 []; Build_dfile (s "codex") pc 3 []];
+            HopDrift pb None;
+            HopDeploy SExplicit true [Build_dfile (s "codex") pa 7 []; Build_dfile (s "codex") pc 4 []]] in
+  fst (snd (deploy_cmd SJsonYes true false None w0 roots DS)) = OApplied /\
+  wfD roots DS /\ wfM DS (managed_for_plan w0 roots None) /\ covered roots DS /\ all_manifests roots (files wS) /\
+  hist_ok roots wS h /\
+  (forall cur init, snaps (run_hist roots wS h) = init ++ [cur] ->
+     forall e e', In e (sn_managed cur) -> In e' (triples DS) -> mpath e = mpath e' -> mtp e = mtp e') /\
+  length (snaps (run_hist roots wS h)) = 3%nat /\
+  files (run_hist roots wS h) pa = Some (FBytes 7) /\ files (run_hist roots wS h) pb = None /\
+  files (snd (rollback (run_hist roots wS h) 0)) pa = Some (FBytes 1) /\
+  files (snd (rollback (run_hist roots wS h) 0)) pb = Some (FBytes 2) /\
+  files (snd (rollback (run_hist roots wS h) 0)) pc = None.
+Proof.
+  cbv zeta. split; [vm_compute; reflexivity|].
+  split; [apply wfD_b_sound; vm_compute; reflexivity|].
+  split; [apply wfM_b_sound; vm_compute; reflexivity|].
+  split; [apply covered_b_sound; vm_compute; reflexivity|].
+  split; [apply all_manifests_b_sound; vm_compute; reflexivity|].
+  split; [apply hist_ok_b_sound; vm_compute; reflexivity|].
+  split; [apply compat_b_sound; vm_compute; reflexivity|].
+  vm_compute. repeat split; reflexivity.
+Qed.
